@@ -555,8 +555,13 @@ func ruleKind(w *World, r *Report) {
 					return
 				}
 				// only the event wrapper may replace an operator, under kind operator/fastOperator of the same node
-				poss := k.kindsPossibleAt(st.Block(), func(n ssa.Value) bool { return n == base || sameValueShape(n, base) })
-				okGate := poss != nil && len(poss) == 1 && (poss[k.operator] || poss[k.fastOperator])
+				poss := k.kindsUnionAt(st.Block(), func(n ssa.Value) bool { return n == base || sameValueShape(n, base) })
+				okGate := poss != nil && len(poss) >= 1
+				for kc := range poss {
+					if kc != k.operator && kc != k.fastOperator {
+						okGate = false
+					}
+				}
 				r.Check(okGate, rule, pos, name, what, "operator replaced by its event wrapper, for an operator/fastOperator node", "a node's operator is replaced outside the event-wrapper site")
 			}
 		})
